@@ -608,6 +608,13 @@ func getterErrorsComeFromLookup(e *Env, rule string) {
 					okSrc = true
 					continue
 				}
+				// the "not found" sentinel itself (the lookup reports absence by a flag and the getter names the error)
+				if ld, isLd := v.(*ssa.UnOp); isLd && ld.Op == token.MUL {
+					if g, isG := ld.X.(*ssa.Global); isG && g.Name() == "ErrOptionNotFound" {
+						okSrc = true
+						continue
+					}
+				}
 				okSrc = false
 				bad = "the error returned at " + e.pos(ret) + " does not come from the option lookup (" + v.String() + "): a present option can be reported as an error"
 				break
@@ -1090,6 +1097,15 @@ func separateMessagePredicate(e *Env, rule string) {
 			return "", false, false
 		}
 		neg := b.Op == token.NEQ
+		// the same facts read from the underlying message's fields
+		if core.IsNilConst(b.Y) {
+			switch {
+			case isFieldLoadNamed(b.X, "Token"):
+				return "no-token", neg, true
+			case isFieldLoadNamed(b.X, "Body"):
+				return "no-body", neg, true
+			}
+		}
 		switch callName(b.X) {
 		case "message/pool.Message.Code":
 			if k, isK := core.ConstInt(b.Y); isK && k == 0 {
@@ -1228,6 +1244,38 @@ func skipsExactlyFrameSize(e *Env, rule string) {
 		}
 		return false
 	}
+	// (c) countdown: remaining starts at msgSize, loses what the buffer reported, the loop ends on remaining == 0
+	for _, i := range core.IfsOf(f) {
+		cond, _ := core.StripNot(i.Cond)
+		cmp, isCmp := core.AsCmp(cond)
+		if !isCmp {
+			continue
+		}
+		var rem ssa.Value
+		if k, isK := core.ConstInt(cmp.Y); isK && k == 0 && (cmp.Op == token.EQL || cmp.Op == token.NEQ || cmp.Op == token.GTR) {
+			rem = cmp.X
+		}
+		phi, isPhi := rem.(*ssa.Phi)
+		if !isPhi {
+			continue
+		}
+		good, starts, steps := true, 0, 0
+		for _, ed := range phi.Edges {
+			if core.Unwrap(ed) == ssa.Value(size) {
+				starts++
+				continue
+			}
+			sub, isSub := ed.(*ssa.BinOp)
+			if !isSub || sub.Op != token.SUB || sub.X != ssa.Value(phi) || !fromBuffer(sub.Y) {
+				good = false
+				continue
+			}
+			steps++
+		}
+		if good && starts >= 1 && steps >= 1 {
+			ok = true
+		}
+	}
 	for _, i := range core.IfsOf(f) {
 		cond, _ := core.StripNot(i.Cond)
 		cmp, isCmp := core.AsCmp(cond)
@@ -1270,5 +1318,5 @@ func skipsExactlyFrameSize(e *Env, rule string) {
 			ok = true
 		}
 	}
-	e.R.Check(ok, rule, q+":skips-exactly-frame-size", e.fpos(f), "the consumed frame is skipped by exactly msgSize bytes (loop ends on skipped == msgSize, skipped += bytes the buffer reported; or one Next(msgSize))", why+": bytes of a delivered frame stay in the buffer and are parsed as new frames, or bytes of the next frame are lost")
+	e.R.Check(ok, rule, q+":skips-exactly-frame-size", e.fpos(f), "the consumed frame is skipped by exactly msgSize bytes (loop ends on skipped == msgSize with skipped += bytes the buffer reported, or on remaining == 0 with remaining = msgSize − those bytes; or one Next(msgSize))", why+": bytes of a delivered frame stay in the buffer and are parsed as new frames, or bytes of the next frame are lost")
 }
